@@ -1181,6 +1181,10 @@ func (x *g) stmt(d int) string {
 		return x.declOrSimple(d)
 	}
 	k := x.n("stmtkind", 30)
+	if x.cfg.ScopeMode && x.chance("scopeheavy", 2) {
+		// C02: favour constructs that open scopes and declare names
+		k = []int{17, 18, 19, 24, 21, 10, 15, 20, 23, 22, 14, 0, 17, 24}[x.n("scopekind", 13)]
+	}
 	switch k {
 	case 0, 1, 2, 3, 4:
 		return x.varDecl(d)
@@ -1222,6 +1226,12 @@ func (x *g) stmt(d int) string {
 		return x.asyncGen(d)
 	case 27:
 		if !x.strict && x.cfg.Goal == "sloppy" {
+			// known findings C01-with-outer-rename / C02-with-nested-function: a with statement inside a
+			// NESTED function interacts badly with renaming in the enclosing functions
+			if x.guard("noWithInNestedFunction") && !x.sc.fscope.top {
+				x.prog.Excluded["noWithInNestedFunction"]++
+				return x.simpleStmt(d)
+			}
 			return x.withStmt(d)
 		}
 	case 28:
